@@ -380,6 +380,12 @@ SizeBound ==
      /\ Cardinality(st[p].macs) <= 4
      /\ Len(st[p].rsq) <= 1
 
+\* C19/C05 for every history: OTR.tla, projected on the key ids and the two tables indexed by key-id pairs, refines
+\* Ratchet.tla, whose bound on those tables is an inductive invariant proved by Apalache for unbounded key ids
+RT == INSTANCE Ratchet WITH r <- [oid |-> 0, tid |-> 0, ctrs |-> {}, macs |-> {}]
+RProj(s) == [oid |-> s.oid, tid |-> s.tid, ctrs |-> {<<c[1], c[2]>> : c \in s.ctrs}, macs |-> {<<k[1], k[2]>> : k \in s.macs}]
+RatchetRefines == [][\A p \in Parties : RT!RStep(RProj(st[p]), RProj(st'[p]))]_vars
+
 \* C18: encrypted exactly between GoneSecure and GoneInsecure
 LastSec(p) == IF evlog[p] = <<>> THEN "none" ELSE evlog[p][Len(evlog[p])]
 EncryptedExactly == \A p \in Parties : (st[p].ms = "enc") <=> (LastSec(p) \in {"sec:GoneSecure", "sec:StillSecure"})
